@@ -223,6 +223,10 @@ def mirrorOk (s : LS) : Bool :=
     ((s.get v).cont.isNone || (s.get v).anc.all (fun a => (s.get a).chi.contains v)) &&
     (s.get v).chi.all (fun c => (s.get c).cont.isSome && (s.get c).anc.contains v))
 
+/-- only values currently held by the model are recorded as ancestors of attached values -/
+def liveOk (s : LS) : Bool :=
+  (List.range s.size).all (fun v => (s.get v).cont.isNone || (s.get v).anc.all (fun a => (s.get a).cont.isSome))
+
 /-- at most one attached value per slot, and it is the one the slot holds -/
 def slotOk (s : LS) : Bool :=
   (List.range s.size).all (fun v =>
